@@ -232,7 +232,7 @@ theorem poolH_sel (hle : TotalOrderB le) (dice : List (Hist α)) (hd : DiceOK le
           else wsum (poolTuples dice)
             (fun t => if selSum le 0 (· + ·) idxs t = z then 1 else 0) :=
       fun z => viaRolls_count 0 (· + ·) dice idxs L hLc z
-    unfold poolH
+    unfold poolH viaRolls
     simp only [hres, hL, bind, Except.bind, pure, Except.pure]
     cases hi : analyze dice.length idxs with
     | none => exact ⟨_, rfl, hvia⟩
